@@ -416,7 +416,11 @@ def run_property(prop_id, tier, seed):
                 print('HARNESS-ERROR property=%s pinned replays failed to run' % prop_id)
                 return EXIT_HARNESS
             for rec in json.load(open(out)):
-                if rec['failed'] and rec['status'] == 'known':
+                if rec['failed'] and rec['status'] == 'known' and not rec.get('matched', True):
+                    violations.append(dict(replay=rec['replay'], clause='pinned',
+                                           message='pinned case of known finding %s now fails differently: %s'
+                                           % (rec['id'], rec['message'])))
+                elif rec['failed'] and rec['status'] == 'known':
                     line = 'KNOWN-FINDING: property=%s %s: %s' % (prop_id, rec['id'], rec['what'])
                     print(line)
                     known_lines.append(line)
@@ -564,14 +568,17 @@ def pinned_main(prop_id, out_path):
         body = json.load(open(path))
         ctx = Ctx(prop.id, 'replay', 0)
         ctx.replaying = True
-        failed, msg = False, ''
+        failed, matched, msg = False, True, ''
         try:
             prop.check(body['case'], ctx)
         except Skip as s:
             msg = 'skipped: ' + s.reason
         except Violation as v:
             failed, msg = True, '%s: %s' % (v.clause, v.message)
+            # a known entry only covers the failure it describes: the key of what fails now must match it
+            if entry['status'] == 'known':
+                matched = F.Findings([entry]).match(prop_id, prop.finding_key(body['case'], v)) is not None
         recs.append(dict(id=entry['id'], status=entry['status'], what=entry.get('what', ''),
-                         replay=entry['replay'], failed=failed, message=msg))
+                         replay=entry['replay'], failed=failed, matched=matched, message=msg))
     with open(out_path, 'w') as fh:
         json.dump(recs, fh)
